@@ -25,6 +25,25 @@ FLAGS_WITH_ARG = frozenset(
 )
 
 
+# env's long options (a unique prefix abbreviates one) and the short ones with an argument
+LONG_OPTIONS = (
+    "ignore-environment",
+    "null",
+    "unset",
+    "chdir",
+    "split-string",
+    "block-signal",
+    "default-signal",
+    "ignore-signal",
+    "list-signal-handling",
+    "debug",
+    "help",
+    "version",
+)
+LONG_WITH_ARG = frozenset({"unset", "chdir", "split-string"})
+SHORT_WITH_ARG = "uCS"
+
+
 def classify(ctx: HandlerContext) -> Classification:
     """Classify env command by extracting the inner command."""
     tokens = ctx.tokens
@@ -40,22 +59,45 @@ def classify(ctx: HandlerContext) -> Classification:
             i += 1
             break
 
-        # -S/--split-string: the argument is itself a command line
-        if token in ("-S", "--split-string") and i + 1 < len(tokens):
-            rest = " ".join([tokens[i + 1]] + tokens[i + 2 :])
-            return Classification("delegate", inner_command=rest)
-        if token.startswith("--split-string="):
-            rest = " ".join([token[len("--split-string=") :]] + tokens[i + 1 :])
-            return Classification("delegate", inner_command=rest)
-        if token.startswith("-S") and len(token) > 2:
-            rest = " ".join([token[2:]] + tokens[i + 1 :])
-            return Classification("delegate", inner_command=rest)
-
-        if token in FLAGS_WITH_ARG:
-            i += 2
+        if token.startswith("--"):
+            # --name, --name=value, or a unique abbreviation of the name
+            name, eq, value = token[2:].partition("=")
+            names = [n for n in LONG_OPTIONS if n == name] or [
+                n for n in LONG_OPTIONS if n.startswith(name)
+            ]
+            if len(names) != 1:
+                return Classification("ask", description=f"env {token}")
+            if names[0] in LONG_WITH_ARG and not eq:
+                if i + 1 >= len(tokens):
+                    return Classification("ask", description=f"env {token}")
+                value = tokens[i + 1]
+                i += 1
+            i += 1
+            # --split-string: the argument is itself a command line
+            if names[0] == "split-string":
+                rest = " ".join([value] + tokens[i:])
+                return Classification("delegate", inner_command=rest)
             continue
 
-        if token.startswith("-"):
+        if token.startswith("-") and len(token) > 1:
+            # short cluster: -u/-C/-S take the rest of the word or the next word
+            k = 1
+            while k < len(token) and token[k] not in SHORT_WITH_ARG:
+                k += 1
+            i += 1
+            if k < len(token):
+                value = token[k + 1 :]
+                if not value:
+                    if i >= len(tokens):
+                        return Classification("ask", description=f"env {token}")
+                    value = tokens[i]
+                    i += 1
+                if token[k] == "S":
+                    rest = " ".join([value] + tokens[i:])
+                    return Classification("delegate", inner_command=rest)
+            continue
+
+        if token == "-":
             i += 1
             continue
 
